@@ -3,7 +3,7 @@ use std::io::{Read, Write, ErrorKind};
 use std::path::Path;
 
 use pest::iterators::Pair;
-use regex::{Regex, RegexBuilder};
+use regex::Regex;
 
 use crate::execute;
 use crate::libs;
@@ -11,6 +11,33 @@ use crate::parsers;
 use crate::shell;
 use crate::types;
 use crate::types::CommandResult;
+
+/// Join a line that ends in a backslash with the next one: blanks around the
+/// break become one blank. A backslash that is itself escaped (an even run of
+/// backslashes before the newline) does not continue the line.
+fn join_continued_lines(text: &str) -> String {
+    let mut result = String::new();
+    let mut rest = text;
+    while let Some(pos) = rest.find("\\\n") {
+        let head = &rest[..pos];
+        let n_backslash = head.chars().rev().take_while(|c| *c == '\\').count() + 1;
+        if n_backslash % 2 == 0 {
+            result.push_str(&rest[..pos + 2]);
+            rest = &rest[pos + 2..];
+            continue;
+        }
+        let kept = head.trim_end_matches([' ', '\t']);
+        let tail = &rest[pos + 2..];
+        let next = tail.trim_start_matches([' ', '\t']);
+        result.push_str(kept);
+        if kept.len() < head.len() || next.len() < tail.len() {
+            result.push(' ');
+        }
+        rest = next;
+    }
+    result.push_str(rest);
+    result
+}
 
 pub fn run_script(sh: &mut shell::Shell, args: &Vec<String>) -> i32 {
     let src_file = &args[1];
@@ -65,12 +92,7 @@ pub fn run_script(sh: &mut shell::Shell, args: &Vec<String>) -> i32 {
     }
 
     if text.contains("\\\n") {
-        let re = RegexBuilder::new(r#"([ \t]*\\\n[ \t]+)|([ \t]+\\\n[ \t]*)"#)
-            .multi_line(true).build().unwrap();
-        text = re.replace_all(&text, " ").to_string();
-
-        let re = RegexBuilder::new(r#"\\\n"#).multi_line(true).build().unwrap();
-        text = re.replace_all(&text, "").to_string();
+        text = join_continued_lines(&text);
     }
 
     let re_func_head = Regex::new(r"^function ([a-zA-Z_-][a-zA-Z0-9_-]*) *(?:\(\))? *\{$").unwrap();
